@@ -35,10 +35,28 @@ package matcher
 //@   requires m.wf()
 //@   ensures[conj] result == matchSpec(*m, s[..])
 //@
+//@ // preSpec: what PreMatch decides exactly (the cheap conditions plus the derived regex prefix)
+//@ spec preSpec(m Matcher, s bytes) bool :=
+//@      (m.Prefix    == "" ||  prefixof(m.Prefix, s))
+//@   && (m.NotPrefix == "" || !prefixof(m.NotPrefix, s))
+//@   && (m.Sub       == "" ||  contains(s, m.Sub))
+//@   && (m.NotSub    == "" || !contains(s, m.NotSub))
+//@   && (len(m.prefixFromRegex) == 0 || prefixof(m.prefixFromRegex[..], s))
+//@ // reOK: the regex part of the filter (regex matches, notRegex does not)
+//@ spec reOK(m Matcher, s bytes) bool := reMatch(m.Regex, s) && (m.NotRegex == "" || !reMatch(m.NotRegex, s))
+//@
 //@ func (m *Matcher) PreMatch(s []byte) bool
 //@   property C03
 //@   requires m.wf()
 //@   ensures[necessary] matchSpec(*m, s[..]) ==> result
+//@   ensures[exact]     result == preSpec(*m, s[..])
+//@
+//@ // used by aggregations only (their regex is mandatory): decides the regex part of the filter
+//@ func (m *Matcher) MatchRegexAndExpand(key []byte, template []byte) (out string, ok bool)
+//@   property C03
+//@   requires m.wf() && m.regex != nil
+//@   ensures[regex_part] ok == reOK(*m, key[..])
+//@   ensures[expanded]   ok ==> out == reExpand(m.Regex, key[..], template[..])
 //@
 //@ func regexToPrefix(regex string) []byte
 //@   property C03
